@@ -382,11 +382,28 @@ class Cx:
             n = int(m.group(1))
         return [deep(v) for _ in range(int(n))]
 
+    lenient_if = False   # opt-in: an undecidable test whose branches only assign makes what they assign undetermined
+
+    def undecided_if(self, e, env, why):
+        """neither branch is taken; every local either branch may write loses its value (reading it later is an error)"""
+        import tast
+        if not self.lenient_if or tast.contains(e, lambda z: z.get("k") in ("Break", "Continue", "Return")) or e.get("ty") not in (None, "()"):
+            raise why
+        for br in (e["then"], e.get("else")):
+            if br is not None:
+                for lid in written_locals(br):
+                    env[lid] = POISON
+        return None
+
     def e_If(self, e, env):
         c = e["cond"]
         if c.get("k") == "LetExpr":
             raise CxUnknown("if let")
-        if deref(self.ev(c, env)):
+        try:
+            cv = deref(self.ev(c, env))
+        except CxUnknown as ex:
+            return self.undecided_if(e, env, ex)
+        if cv:
             return self.ev(e["then"], env)
         if e.get("else") is not None:
             return self.ev(e["else"], env)
@@ -526,6 +543,18 @@ class Cx:
             return self.call_fn(d, [self.ev(a, env) for a in e["args"]])
         if d.endswith("::into_vec") or d.endswith("slice::<impl [T]>::into_vec") or d.endswith("box_new") or d.endswith("Box::<T>::new"):
             return deref(self.ev(e["args"][0], env))
+        if d in ("std::convert::From::from", "std::convert::Into::into") and len(e["args"]) == 1:
+            # lossless primitive conversions: bool -> integer, integer widening, integer / f32 -> f64
+            v = deref(self.ev(e["args"][0], env))
+            to = (e.get("ty") or "")
+            if isinstance(v, bool) and to in ("usize", "u8", "u16", "u32", "u64", "u128", "isize", "i8", "i16", "i32", "i64", "i128"):
+                return int(v)
+            if isinstance(v, int) and not isinstance(v, bool) and to in ("usize", "u16", "u32", "u64", "u128", "isize", "i16", "i32", "i64", "i128"):
+                return v
+            if isinstance(v, int) and not isinstance(v, bool) and to in ("f64", "f32"):
+                return Poly.const(Fraction(v))
+            if isinstance(v, Poly) and to in ("f64",):
+                return v
         raise CxUnknown("call %s" % d)
 
     def e_MethodCall(self, e, env):
@@ -571,12 +600,33 @@ class Cx:
                 return min(rv, o) if nm == "min" else max(rv, o)
             if nm == "clone":
                 return rv
+            if nm in ("cmp", "partial_cmp") and len(args) == 1:
+                o = deref(self.ev(args[0], env))
+                if isinstance(o, int) and not isinstance(o, bool):
+                    ordv = {"__adt": "std::cmp::Ordering", "__variant": "std::cmp::Ordering::" + ("Less" if rv < o else "Greater" if rv > o else "Equal")}
+                    return ordv if nm == "cmp" else {"__adt": "std::option::Option", "__variant": "std::option::Option::Some", "0": ordv}
+            if nm == "signum" and not args:
+                return (rv > 0) - (rv < 0)
+            if nm == "abs" and not args:
+                return abs(rv)
+            if nm in ("saturating_sub", "saturating_add", "wrapping_add", "wrapping_sub") and len(args) == 1:
+                o = deref(self.ev(args[0], env))
+                if isinstance(o, int):
+                    r_ = rv - o if "sub" in nm else rv + o
+                    if nm.startswith("saturating") and (e["recv"].get("ty") or "").lstrip("&").startswith("u"):
+                        r_ = max(r_, 0)
+                    return r_
+            if nm in ("is_positive", "is_negative") and not args:
+                return rv > 0 if nm == "is_positive" else rv < 0
         if isinstance(rv, Poly):
             if nm == "clone":
                 return rv
             if nm == "abs":
                 if rv.is_const():
                     return Poly.const(abs(rv.const_value()))
+                if self.lenient_if:
+                    from poly import opaque
+                    return opaque("abs", [rv])       # kept symbolic: exact identities about it are not claimed, tests on it are undecided
                 raise CxUnknown("abs of symbolic data")
             if nm in ("round", "floor", "ceil", "trunc") and rv.is_const():
                 import math
@@ -641,7 +691,9 @@ def written_locals(st):
         else:
             if k == "MethodCall":
                 b = base(q["recv"])
-                if b and q.get("name") in ("fill", "copy_from_slice", "clone_from_slice", "push", "clear", "swap", "resize", "truncate", "extend", "iter_mut"):
+                if b and q.get("name") in ("fill", "copy_from_slice", "clone_from_slice", "push", "clear", "swap", "resize", "truncate", "extend", "iter_mut",
+                                           "split_at_mut", "chunks_mut", "chunks_exact_mut", "as_mut_slice", "last_mut", "first_mut", "get_mut", "split_first_mut", "split_last_mut",
+                                           "sort", "sort_by", "reverse", "rotate_left", "rotate_right", "insert", "remove", "pop", "retain", "drain", "append"):
                     out.add(b)
             for a in q.get("args", []):
                 if a.get("k") == "AddrOf" and a.get("mut"):
